@@ -148,8 +148,9 @@ def fread (sh : Shim) (w : World) (bytes items : Int) : R :=
     { ret := cdiv (r.1.length : Int) bytes, data := r.1, sh := sh, w := r.2 } else
   if items * bytes ≤ 0 then { ret := 0, sh := sh, w := w } else
   let r := osRead w sh.filedes (items * bytes).toNat
+  let sh1 := if w.valid sh.filedes then sh else logSyserr sh          -- read () == -1: EBADF
   { ret := cdiv (r.1.length : Int) bytes, data := r.1,
-    sh := if sh.isPipe then { sh with pipeoffset := sh.pipeoffset + r.1.length } else sh, w := r.2 }
+    sh := if sh.isPipe then { sh1 with pipeoffset := sh1.pipeoffset + r.1.length } else sh1, w := r.2 }
 
 /-- `data` is what the caller's pointer holds (bytes*items bytes are taken from it) -/
 def fwrite (sh : Shim) (w : World) (bytes items : Int) (data : List Byte) : R :=
@@ -160,7 +161,8 @@ def fwrite (sh : Shim) (w : World) (bytes items : Int) (data : List Byte) : R :=
     { ret := cdiv (r.1 : Int) bytes, sh := sh, w := r.2 } else
   if items * bytes ≤ 0 then { ret := 0, sh := sh, w := w } else
   let r := osWrite w sh.filedes (data.take (items * bytes).toNat)
-  { ret := cdiv (r.1 : Int) bytes, sh := if sh.isPipe then { sh with pipeoffset := sh.pipeoffset + r.1 } else sh, w := r.2 }
+  let sh1 := if w.valid sh.filedes then sh else logSyserr sh          -- write () == -1: EBADF
+  { ret := cdiv (r.1 : Int) bytes, sh := if sh.isPipe then { sh1 with pipeoffset := sh1.pipeoffset + r.1 } else sh1, w := r.2 }
 
 def ftell (sh : Shim) (w : World) : R :=
   if sh.virtualIo then { ret := w.mpos, sh := sh, w := w } else
@@ -305,9 +307,13 @@ def openFileEmbed (sh : Shim) (w : World) : OpenRes :=
 /-- psf_open_file up to the container dispatch -/
 def openFileHead (sh : Shim) (w : World) : OpenRes := openFileEmbed (openFileLen sh w) w
 
-/-- the RIFF / FORM size clamp of wav.c:353 and aiff.c:464 (`declared` = chunk size + 8), au.c:322 (`declared` = data end) -/
+/-- what the container parsers do to `filelength`: wav.c:353 and aiff.c:464 (`declared` = RIFF / FORM size + 8) clamp
+    only embedded files; au.c:322-330 (`declared` = data offset + data size) clamps embedded files always and plain
+    files when the header says less than the file holds -/
 def clampDeclared (sh : Shim) (au : Bool) (declared : Int) : Shim :=
-  if sh.fileoffset > 0 ∧ (au ∨ sh.filelength > declared) then { sh with filelength := declared } else sh
+  if au then
+    (if sh.fileoffset > 0 ∨ declared < sh.filelength then { sh with filelength := declared } else sh)
+  else if sh.fileoffset > 0 ∧ sh.filelength > declared then { sh with filelength := declared } else sh
 
 /-- psf_open_file after the container's open function returned 0 with major format `major` -/
 def openFileTail (sh : Shim) (w : World) (major : Nat) : OpenRes :=
